@@ -20,9 +20,26 @@ class WeightEngine:
         self.T = ctx.typer
         self.findings = []
         self.sites = 0
-        for q, fn in self.M.funcs.items():
-            if fn.mod in FILES:
-                W(self, q).run()
+        # weights of the point parameters of *private* helpers come from their call sites (a helper that receives
+        # differences of points works on displacements); public functions receive positions
+        self.param_w = {}
+        for _ in range(3):
+            self.callsites = {}
+            self.findings, self.sites = [], 0
+            for q, fn in self.M.funcs.items():
+                if fn.mod in FILES:
+                    W(self, q).run()
+            new = {}
+            for (q, pname), ws in self.callsites.items():
+                ws = set(ws)
+                new[(q, pname)] = 0 if ws == {0} else 1 if 1 in ws else None
+            if new == self.param_w:
+                break
+            self.param_w = new
+
+    @staticmethod
+    def is_private(fn):
+        return fn.name.startswith("_") and not (fn.name.startswith("__") and fn.name.endswith("__"))
 
 
 class W:
@@ -34,6 +51,10 @@ class W:
             elif t in ("PlanarCurve", "BezierCurve"): s.env[name] = ("curve", 1)
             elif isinstance(t, tuple) and t[0] == "seq" and t[1] == "Point2D": s.env[name] = ("seq", ("pt", 1))
         s.env = {k: v for k, v in s.env.items() if k in [a.arg for a in s.fn.node.args.args]}
+        if eng.is_private(s.fn):
+            for k, v in list(s.env.items()):
+                if v[0] == "pt" and (q, k) in eng.param_w:
+                    s.env[k] = ("pt", eng.param_w[(q, k)])
     def typ(s, e):
         try: return s.inf.typeof(e)
         except Exception: return P.UNK
@@ -139,7 +160,14 @@ class W:
             return UNK
         if isinstance(e, ast.Call):
             f = e.func; args = [s.ev(a) for a in e.args]
-            for k in e.keywords: s.ev(k.value)
+            kws = {k.arg: s.ev(k.value) for k in e.keywords}
+            if s.final:
+                for t in s.inf.targets(e, ("call",)):
+                    if s.eng.is_private(t):
+                        ps = [a.arg for a in t.node.args.posonlyargs + t.node.args.args]
+                        if t.kind in ("method", "getter", "setter", "class") and ps: ps = ps[1:]
+                        for pn, av in list(zip(ps, args)) + [(k, v) for k, v in kws.items() if k in ps]:
+                            if av[0] == "pt": s.eng.callsites.setdefault((t.qname, pn), []).append(av[1])
             name = f.id if isinstance(f, ast.Name) else f.attr if isinstance(f, ast.Attribute) else None
             if isinstance(f, ast.Name):
                 if name == "abs":
